@@ -258,6 +258,16 @@ package account
 //@   ensures bytes(result) == @select(@select(ghost(stor), ref(ao)), old(bytes(key)))
 //@   modifies nothing
 
+// Reading the committed value of a slot is a query (C04: the answers of the state after a revert depend on what
+// the cache holds): it may fill the cache for a slot that is not cached yet, but never replaces a cached - possibly
+// uncommitted - value.
+//@ func accountObject.GetCommittedData
+//@   property C04
+//@   requires ao != nil && accountLog != nil
+//@   requires [object!init] ao.cachedStorage != nil
+//@   ensures [query] forall k string :: old(has(ao.cachedStorage, k)) ==> has(ao.cachedStorage, k) && ao.cachedStorage[k] == old(ao.cachedStorage[k])
+//@   modifies ao.trie, ao.dbErr, entries(ao.cachedStorage)
+
 // SetData journals the previous content of the slot (what GetData answers) unless the write changes nothing.
 //@ func accountObject.SetData
 //@   property C04
@@ -350,6 +360,10 @@ package account
 //@   option interface
 //@   ensures ghost(flushed) == @store(old(ghost(flushed)), old(bytes(key)), true)
 //@   modifies ghost(flushed)
+
+//@ func Trie.TryGet
+//@   option interface
+//@   modifies nothing
 
 //@ func Trie.TryDelete
 //@   option interface
